@@ -44,18 +44,77 @@ func diffEntries(v Variant, ks, vs []int, want []entry) string {
 	return ""
 }
 
-// checkIterate drains Iterate() against the whole reference.
-func (e *Exec) checkIterate() {
-	if !e.checking() {
+// judgeLen / judgeExtreme: the Len, First and Last clauses (explicit ops and the periodic sweep).
+func (e *Exec) judgeLen(n int, panicked, spun bool) {
+	switch {
+	case panicked:
+		e.panicFail("c01", "len", spun)
+	case n != len(e.ref):
+		e.failf("c01-wrong-len", e.params("len"), "Len() = %d, the ideal collection holds %d distinct keys", n, len(e.ref))
+	}
+}
+
+func (e *Exec) judgeExtreme(op string, k, v int, panicked, spun bool) {
+	if !e.checking("c01") {
 		return
+	}
+	switch {
+	case panicked:
+		e.panicFail("c01", op, spun)
+	case len(e.ref) == 0:
+		if k != 0 || v != 0 {
+			e.failf("c01-wrong-"+op, e.params(op, "empty", true), "%s on the empty collection returned (%d,%d), want the zero values", op, k, v)
+		}
+	default:
+		w := e.ref[0]
+		if op == "last" {
+			w = e.ref[len(e.ref)-1]
+		}
+		if k == 0 || e.v.rank(k) != e.v.rank(w.k) || v != w.v {
+			e.failf("c01-wrong-"+op, e.params(op), "%s returned (%d,%d), the extreme entry of the ideal collection is (%d,%d)", op, k, v, w.k, w.v)
+		}
+	}
+}
+
+// checkFull is the periodic full sweep of the C01 monitor (every 16th op and at the end of every
+// case): the complete results of Iterate(), Range(Unbounded, Unbounded) and
+// RangeReverse(Unbounded, Unbounded) and the answers of Len / First / Last are compared with the
+// reference. A cursor has to leave every node of the tree in both directions, so damage that the
+// point lookups do not see (a node that is unreachable from its neighbours) shows here.
+func (e *Exec) checkFull() {
+	if !e.checking("c01") {
+		return
+	}
+	e.sweeps++
+	e.lastSweepOp = e.nops
+	if len(e.ref) > bigFillKeys {
+		e.sweepsBig++
 	}
 	ks, vs, p, spun := e.drain(func() nextFn { return e.c.Iterate() })
 	if p {
 		e.panicFail("c01", "iterate", spun)
-		return
-	}
-	if d := diffEntries(e.v, ks, vs, e.ref); d != "" {
+	} else if d := diffEntries(e.v, ks, vs, e.ref); d != "" {
 		e.failf("c01-wrong-iterate", e.params("iterate"), "Iterate(): %s (got %d items, the ideal collection holds %d)", d, len(ks), len(e.ref))
+	}
+	u := Bnd{Kind: 'u'}
+	for _, rev := range []bool{false, true} {
+		op := pick(rev, "rrange", "range")
+		ks, vs, p, spun := e.drain(func() nextFn { return e.c.Range(rev, u, u) })
+		e.checkRange(op, rev, u, u, ks, vs, p, spun)
+	}
+	var n int
+	p, spun = e.call(func() { n = e.c.Len() })
+	e.judgeLen(n, p, spun)
+	for _, op := range []string{"first", "last"} {
+		var k, v int
+		p, spun := e.call(func() {
+			if op == "first" {
+				k, v = e.c.First()
+			} else {
+				k, v = e.c.Last()
+			}
+		})
+		e.judgeExtreme(op, k, v, p, spun)
 	}
 }
 
@@ -180,7 +239,7 @@ func (e *Exec) checkCost(op string, k, cost int) {
 }
 
 func (e *Exec) checkC03(s *Shape) {
-	if !e.checking() {
+	if !e.checking("c03") {
 		return
 	}
 	n := -1
